@@ -782,6 +782,76 @@ fn sweep_long_lines(fmt: Format, probes: &[&str]) -> Acc {
         .reduce(Acc::default, Acc::merge)
 }
 
+/// well-formed files far beyond the small scope (two- to four-digit indexes, labels of 10+ characters,
+/// thousands of lines) and their structural edits: the classifier is the same, only the sizes differ
+fn sweep_big_files(fmt: Format, probes: &[&str], thorough: bool) -> Acc {
+    let sizes: Vec<usize> = if thorough { vec![12, 40, 150, 1000, 3000] } else { vec![12, 40, 150, 1000] };
+    let cells: Vec<(&str, usize, usize)> = crate::checks::c11::FAMILIES.iter().flat_map(|f| sizes.iter().flat_map(move |&z| (0..2usize).map(move |style| (*f, z, style)))).collect();
+    cells
+        .par_iter()
+        .with_max_len(1)
+        .map(|&(fam, size, style)| {
+            let mut acc = Acc::default();
+            let g = crate::checks::c11::family(fam, size);
+            let n = g.n;
+            let label = |i: usize| if style == 0 { format!("a{}", i) } else { format!("argument_{:05}_of_{}", i, fam) };
+            let text = match fmt {
+                Format::Iccma => {
+                    if style == 1 {
+                        // same file with comments interleaved
+                        let mut t = format!("# {} {}\np af {}\n", fam, size, n);
+                        for (k, &(a, b)) in g.att.iter().enumerate() {
+                            if k % 7 == 0 {
+                                t.push_str("# comment line\n");
+                            }
+                            t.push_str(&format!("{} {}\n", a + 1, b + 1));
+                        }
+                        t
+                    } else {
+                        crate::universe::iccma_text(&g)
+                    }
+                }
+                Format::Apx => crate::universe::apx_text(&g, &(0..n).map(label).collect::<Vec<_>>()),
+            };
+            acc.feed(fmt, "big files", text.as_bytes(), probes);
+            let lines: Vec<&str> = text.split_inclusive('\n').collect();
+            let m = lines.len();
+            let mut pos = vec![0, 1, 2, m / 3, m / 2, m - 2, m - 1];
+            pos.retain(|&p| p < m);
+            pos.dedup();
+            for &i in &pos {
+                let mut t = lines.clone();
+                t.remove(i);
+                acc.feed(fmt, "big files: line deletion", t.concat().as_bytes(), probes);
+                let mut t = lines.clone();
+                t.insert(i, lines[i]);
+                acc.feed(fmt, "big files: line duplication", t.concat().as_bytes(), probes);
+                let mut t = lines.clone();
+                t.swap(i, m - 1);
+                acc.feed(fmt, "big files: line swap", t.concat().as_bytes(), probes);
+                let mut t = lines.clone();
+                t.insert(i, "\n");
+                acc.feed(fmt, "big files: blank line inserted", t.concat().as_bytes(), probes);
+            }
+            let extra: Vec<String> = match fmt {
+                Format::Iccma => vec![format!("{} 1\n", n + 1), format!("1 {}\n", n + 1), "0 1\n".into(), format!("{} {}\n", n, n), format!("{} {} 1\n", n, n), format!("{}\n", n), format!("p af {}\n", n)],
+                Format::Apx => vec![format!("att({},{}).\n", label(n - 1), label(n)), format!("att({},{}).\n", label(n), label(0)), format!("att({},{}).\n", label(n - 1), label(n - 1)), format!("arg({}).\n", label(n)), format!("att({}).\n", label(0)), format!("arg({}).\n", label(0))],
+            };
+            for e in &extra {
+                acc.feed(fmt, "big files: line appended", format!("{}{}", text, e).as_bytes(), probes);
+            }
+            if fmt == Format::Iccma {
+                // header declaring one argument fewer / more than the attack lines use
+                for d in [n - 1, n + 1] {
+                    let t = text.replacen(&format!("p af {}\n", n), &format!("p af {}\n", d), 1);
+                    acc.feed(fmt, "big files: header count changed", t.as_bytes(), probes);
+                }
+            }
+            acc
+        })
+        .reduce(Acc::default, Acc::merge)
+}
+
 /// One input through `crustabri check -f FILE -r FORMAT` (the reader's command-line face, which the
 /// property names as an observation point): exit status 0 in the must-accept zone, non-zero in the
 /// must-reject zone, a regular exit everywhere.
@@ -903,6 +973,7 @@ pub fn run(tier: Tier) -> i32 {
         run_one(format!("{}: all byte strings of length <= 2, and of length 3 over 40 bytes", fmt.name()), sweep_short_bytes(fmt, probes), &mut total);
         run_one(format!("{}: every well-formed file of U(<={}) in a menu of layouts", fmt.name(), 3), sweep_grammar(fmt, 3, probes), &mut total);
         run_one(format!("{}: one line of every length <= 130+ with one character of each UTF-8 width at every offset, in 7 syntactic positions", fmt.name()), sweep_long_lines(fmt, probes), &mut total);
+        run_one(format!("{}: well-formed files of 10 structured families with 12 ... {} arguments (short and 20+-character labels / interleaved comments) and their line edits", fmt.name(), if thorough { 3000 } else { 1000 }), sweep_big_files(fmt, probes, thorough), &mut total);
         let kc = if thorough { 3 } else { 2 };
         run_one(format!("{}: `crustabri check` as a process on the corpus, its line edits and all line sequences of length <= {}", fmt.name(), kc), sweep_check_command(fmt, lines, kc), &mut total);
     }
@@ -920,8 +991,8 @@ pub fn run(tier: Tier) -> i32 {
         rep.n_violations += n - 1;
         rep.add_violation(v);
     }
-    rep.rule = "every input of six exhaustively enumerated finite families per format is read by the real reader, and a seventh family is given to `crustabri check` as a process (exit status 0 / non-zero against the same zones); states = transitions = inputs; three-zone oracle: strict grammar => Ok with exactly the declared arguments (declaration order, ids) and attacks; the ill-formedness classes the property lists => Err; everything else: no requirement on accept/reject; in all zones no panic and a self-consistent result; read_arg_from_str probed on every accepted framework; distinct_nontrivial = inputs in the must-accept or must-reject zone".into();
-    rep.bounds = json!({"token_string_length": ktok, "line_sequence_length": klin, "declared_sizes": "<= 10"});
+    rep.rule = "every input of seven exhaustively enumerated finite families per format is read by the real reader, and an eighth family is given to `crustabri check` as a process (exit status 0 / non-zero against the same zones); states = transitions = inputs; three-zone oracle: strict grammar => Ok with exactly the declared arguments (declaration order, ids) and attacks; the ill-formedness classes the property lists => Err; everything else: no requirement on accept/reject; in all zones no panic and a self-consistent result; read_arg_from_str probed on every accepted framework; distinct_nontrivial = inputs in the must-accept or must-reject zone".into();
+    rep.bounds = json!({"token_string_length": ktok, "line_sequence_length": klin, "declared_sizes": "<= 10 in the exhaustive families, 12 ... 1000 [3000] in the structured big-file family"});
     rep.assumptions = vec!["the zone classifier (harness) is the specification of well-/ill-formedness; CRLF, irregular spacing, duplicate declarations, exotic number spellings are deliberately unspecified".into()];
     rep.finish()
 }
